@@ -143,6 +143,9 @@ def read_manifest(path):
         rh = pi.find(NS + "roothash")
         if rh is not None:
             out["root"] = _dir_entries(rh)
+            out["root_attrs"] = _dir_attrs(rh)                       # C10: action / hashdate of the content elements
+            rp = rh.find(NS + "previousPath")
+            out["root_previous"] = rp.text if rp is not None else None
         ig = pi.find(NS + "ignore")
         if ig is not None:
             out["patterns"] = [p.text or "" for p in ig.findall(NS + "pattern")]
@@ -163,6 +166,7 @@ def read_manifest(path):
             }
             if n == "directoryhash":
                 rec["entries"] = [(f, c, None, None, s) for (f, c, s) in _dir_entries(h)]
+                rec["dir_attrs"] = _dir_attrs(h)                     # C10: [(fmt, action, hashdate)] of the content elements
             else:
                 rec["entries"] = [
                     (lname(e.tag), e.text, e.attrib.get("action"), e.attrib.get("hashdate"), None)
@@ -182,6 +186,11 @@ def _dir_entries(el):
     cont = [(lname(e.tag), e.text) for e in c] if c is not None else []
     stru = {lname(e.tag): e.text for e in s} if s is not None else {}
     return [(f, d, stru.get(f)) for f, d in cont]
+
+
+def _dir_attrs(el):
+    c = el.find(NS + "content")
+    return [(lname(e.tag), e.attrib.get("action"), e.attrib.get("hashdate")) for e in c] if c is not None else []
 
 
 def read_chain(path):
